@@ -80,7 +80,7 @@ PROPS = {
                 what="on-disk histories with close/reopen in-process (restart) compared with the model; and fault enumeration: a child process "
                      "is SIGKILLed at instrumentation points (txn.begin, cas.afterwrite, txn.precommit, txn.committed, post.before, ...) and a "
                      "fresh process reopens and reads everything back"),
-    "C11": dict(modules=["Rosmar.Properties.C11", "Rosmar.Gen.TieFacts", "Rosmar.Gen.TieSqlBase", "Rosmar.Gen.TieSqlReadPins"], slices=[MULTI, MULTID, COLLS, COLLSD, VIEWM, RESUME2], proj=V.proj_all, isolation_search=True,
+    "C11": dict(modules=["Rosmar.Properties.C11", "Rosmar.Gen.TieFacts", "Rosmar.Gen.TieSqlBase", "Rosmar.Gen.TieSqlWritePins", "Rosmar.Gen.TieSqlReadPins"], slices=[MULTI, MULTID, COLLS, COLLSD, VIEWM, RESUME2], proj=V.proj_all, isolation_search=True,
                 what="every key of every collection re-read after every operation on any collection"),
     "C03": dict(modules=["Rosmar.Properties.C03"], slices=[KV, KVD], proj=V.proj_all,
                 what="forced interleavings of compound calls (Update, WriteUpdateWithXattrs, WriteSubDoc, Incr) with other writers through the "
